@@ -172,6 +172,8 @@ pub struct Gen {
     pub step: usize,
     pub respelled: u64,
     pub hostile_used: u64,
+    /// operations to issue before anything is generated (scale runs)
+    pub queue: std::collections::VecDeque<Op>,
 }
 
 pub fn make_env(names: &[String], rng: &mut Rng) -> Env {
@@ -215,7 +217,7 @@ impl Gen {
         if profile.hostile >= 30 && rng.chance(1, 3) {
             profile.hostile = 8;
         }
-        Gen { names, max_depth, profile, enabled, run_tag, step: 0, respelled: 0, hostile_used: 0 }
+        Gen { names, max_depth, profile, enabled, run_tag, step: 0, respelled: 0, hostile_used: 0, queue: Default::default() }
     }
 
     fn name(&self, rng: &mut Rng) -> String {
@@ -405,10 +407,23 @@ impl Gen {
             4 => v.extend_from_slice(b"l1\nl2\n\nl4"),
             5 => v.extend_from_slice(b"c1\r\nc2\r\n"),
             _ => {
-                let n = rng.range(4096, 65536);
-                let b = b'A' + rng.below(26) as u8;
-                v.extend(std::iter::repeat(b).take(n));
+                // (sizes on both sides of the usual buffer sizes; now and then multi-byte text)
+                let n = *rng.pick(&[4096usize, 8191, 8192, 20000, 65535, 65536, 70000, 150000]) + rng.below(3);
+                if rng.chance(1, 3) {
+                    for _ in 0..n / 2 {
+                        v.extend_from_slice("\u{e9}".as_bytes());
+                    }
+                } else {
+                    let b = b'A' + rng.below(26) as u8;
+                    v.extend(std::iter::repeat(b).take(n));
+                }
             },
+        }
+        // a byte order mark in front: text like any other
+        if !v.is_empty() && rng.chance(1, 40) {
+            let mut w = "\u{feff}".as_bytes().to_vec();
+            w.extend_from_slice(&v);
+            v = w;
         }
         Bytes(v)
     }
@@ -527,7 +542,94 @@ impl Gen {
     }
 
     /// Next operation given the model state
+    /// Scale run: the history starts with a prefix that takes the filesystem to a size ordinary
+    /// runs never reach - a directory with hundreds of entries, a chain of directories deeper
+    /// than the descriptor cap, a file of several hundred kilobytes of multi-byte text - followed
+    /// by the calls that have to cope with it. (Thresholds, cut-offs and buffer sizes are tuning
+    /// knobs like any other: some runs must sit on the far side of them.)
+    pub fn scale_prefix(&mut self, rng: &mut Rng) -> usize {
+        let tag = self.run_tag.clone();
+        let mut q: Vec<Op> = vec![];
+        match rng.below(3) {
+            0 => {
+                let n = *rng.pick(&[66usize, 70, 130, 260, 300]);
+                q.push(Op::MkdirP { p: "/W".into() });
+                for i in 0..n {
+                    if i % 9 == 4 {
+                        q.push(Op::MkdirM { p: format!("/W/d{}", i), mode: *rng.pick(&[0o755u32, 0o700, 0o750]) });
+                        q.push(Op::WriteAll { p: format!("/W/d{}/in", i), d: Bytes(format!("<{}.w{}>", tag, i).into_bytes()) });
+                    } else {
+                        q.push(Op::WriteAll { p: format!("/W/w{}", i), d: Bytes(format!("<{}.w{}>", tag, i).into_bytes()) });
+                    }
+                }
+                q.push(Op::AllPaths { p: "/W".into() });
+                match rng.below(6) {
+                    0 => q.push(Op::RemoveAll { p: "/W".into() }),
+                    1 => q.push(Op::Copy { s: "/W".into(), d: "/W2".into() }),
+                    2 => q.push(Op::MoveP { s: "/W".into(), d: "/V".into() }),
+                    3 => q.push(Op::ChmodB { p: "/W".into(), calls: vec![ChmodCall::Files(0o600), ChmodCall::Recurse] }),
+                    4 => q.push(Op::Entries { p: "/W".into(), o: EntOpts { sort_by_name: true, contents_first: rng.chance(1, 2), ..EntOpts::default() } }),
+                    _ => q.push(Op::Files { p: "/W".into() }),
+                }
+                q.push(Op::AllPaths { p: "/".into() });
+            },
+            1 => {
+                let depth = *rng.pick(&[9usize, 12, 41, 45, 52, 58]);
+                let mut p = String::from("/D");
+                for i in 0..depth {
+                    p.push_str(if i % 2 == 0 { "/a" } else { "/b" });
+                }
+                q.push(Op::MkdirP { p: p.clone() });
+                q.push(Op::WriteAll { p: format!("{}/leaf", p), d: Bytes(format!("<{}.leaf>", tag).into_bytes()) });
+                q.push(Op::AllFiles { p: "/".into() });
+                match rng.below(5) {
+                    0 => q.push(Op::Copy { s: "/D".into(), d: "/D2".into() }),
+                    1 => q.push(Op::RemoveAll { p: "/D".into() }),
+                    2 => q.push(Op::Entries { p: "/D".into(), o: EntOpts { follow: rng.chance(1, 2), ..EntOpts::default() } }),
+                    3 => q.push(Op::ChownB { p: "/D".into(), calls: vec![ChownCall::Owner(5, 7), ChownCall::Recurse(true)] }),
+                    _ => q.push(Op::MoveP { s: "/D/a".into(), d: "/E".into() }),
+                }
+                q.push(Op::AllPaths { p: "/".into() });
+            },
+            _ => {
+                // several hundred kilobytes, multi-byte text at odd offsets, lines across any block size
+                let unit = *rng.pick(&["\u{e9}", "\u{20ac}", "ab\u{e9}\n", "\u{1f600}x"]);
+                let n = *rng.pick(&[5000usize, 33000, 70000, 140000]);
+                let mut d = format!("<{}.big>", tag).into_bytes();
+                if rng.chance(1, 2) {
+                    d.push(b'x');
+                }
+                for _ in 0..n {
+                    d.extend_from_slice(unit.as_bytes());
+                }
+                q.push(Op::MkdirP { p: "/B".into() });
+                q.push(Op::WriteAll { p: "/B/big".into(), d: Bytes(d.clone()) });
+                q.push(Op::ReadAll { p: "/B/big".into() });
+                q.push(Op::ReadLines { p: "/B/big".into() });
+                q.push(Op::OpenAppend { h: 0, p: "/B/big".into() });
+                q.push(Op::HWrite { h: 0, d: Bytes(format!("<{}.tail>", tag).into_bytes()) });
+                q.push(Op::HFlush { h: 0 });
+                q.push(Op::AppendAll { p: "/B/big".into(), d: Bytes(b"<after>".to_vec()) });
+                q.push(Op::HDrop { h: 0 });
+                q.push(Op::OpenWrite { h: 1, p: "/B/w".into() });
+                q.push(Op::HWrite { h: 1, d: Bytes(d.clone()) });
+                q.push(Op::HWrite { h: 1, d: Bytes(b"<more>".to_vec()) });
+                q.push(Op::HDrop { h: 1 });
+                q.push(Op::ReadAll { p: "/B/w".into() });
+                q.push(Op::Copy { s: "/B/big".into(), d: "/B/copy".into() });
+                q.push(Op::ReadAll { p: "/B/copy".into() });
+            },
+        }
+        let n = q.len();
+        self.queue = q.into_iter().collect();
+        n
+    }
+
     pub fn next_op(&mut self, m: &Model, rng: &mut Rng) -> Op {
+        if let Some(op) = self.queue.pop_front() {
+            self.step += 1;
+            return op;
+        }
         let ws: Vec<u32> = self.enabled.iter().map(|x| x.1).collect();
         let kind = self.enabled[rng.weighted(&ws)].0;
         self.build(kind, m, rng)
